@@ -67,6 +67,19 @@ def gen_cases(ctx):
             # consequences of the proved bounds (majorant <= vmax g^n): specialize (3n roundings), generic subdivision (4n+2)
             tol = max((3 * n + 1) * g ** n, 4 * n + 3) * U * vmax
             cases.append({"n": n, "rows": rows, "a": a, "b": b, "tol": tol, "stream": "bound"})
+        # --- parameters a hair away from 0 or 1 (2^-45 .. 2^-60, either side): the restriction to [a, b] is NOT the restriction to
+        # the nearest of 0 / 1 (seed c04-6 snapped them in Curve.specialize); judged with the proved allowance
+        if n <= 8:
+            for rep in range(1 if ctx.quick() else 4):
+                rows = [[dyadic(rng, 14, 10) for _ in range(n + 1)] for _ in range(rng.randint(1, 2))]
+                base = rng.choice([Fraction(0), Fraction(1)])
+                tiny = Fraction(1, 2 ** rng.choice([45, 46, 50, 60] if base == 0 else [45, 46, 50])) * rng.choice([1, -1])
+                near = base + tiny
+                other = Fraction(rng.randint(1, 7), 8)
+                a, b = (near, other) if rng.random() < 0.5 else (other, near)
+                g = max(abs(1 - a) + abs(a), abs(1 - b) + abs(b), 1)
+                vmax = max(abs(x) for r in rows for x in r)
+                cases.append({"n": n, "rows": rows, "a": a, "b": b, "tol": max((3 * n + 1) * g ** n, 4 * n + 3) * U * vmax, "stream": "bound-near-end"})
     return cases
 
 
